@@ -2,6 +2,7 @@ package variable
 
 import (
 	"fmt"
+	"math"
 	"strconv"
 )
 
@@ -38,8 +39,11 @@ func (v *Value) ToString() string {
 	switch {
 	case v.Number != nil:
 		n := *v.Number
-		if n == float64(int(n)) {
-			return strconv.Itoa(int(n))
+		if n == math.Trunc(n) && !math.IsInf(n, 0) {
+			if -(1<<63) <= n && n < 1<<63 {
+				return strconv.Itoa(int(n))
+			}
+			return strconv.FormatFloat(n, 'f', -1, 64) // integral, but beyond int: all the digits
 		}
 		return fmt.Sprint(n)
 	case v.Boolean != nil:
